@@ -12,6 +12,7 @@ import MidoModel.MsgObj
 import MidoModel.Heap
 import MidoModel.Strings
 import MidoModel.PortsConc
+import MidoModel.LockDisc
 /- Text protocol helpers for the driver: parsing requests, printing canonical results. -/
 namespace Mido
 
@@ -299,6 +300,40 @@ def runConc (ts : List String) : String :=
   let ths := (List.range progs.length).map (fun i => s!"{showGot (w.th i).got}:{if (w.th i).pc == Conc.Pc.done then "done" else "live"}")
   s!"fault={if w.fault then 1 else 0} q={commaList (w.q.map toString)} sent={commaList (w.sent.map toString)} recv={commaList (w.recv.map toString)} | " ++
     " | ".intercalate ths
+
+/-! event traces of the locking discipline: `disc n=2 g=0:0,1:1 q=0:5.6/1: ev=1:a:0,1:t:0,1:p:0,1:r:0,2:w:1:7` -/
+def parseDiscEv (s : String) : Option (Nat × Disc.Ev) :=
+  match s.splitOn ":" with
+  | [t, "a", l] => match parseNat? t, parseNat? l with | some t, some l => some (t, .acq l) | _, _ => none
+  | [t, "r", l] => match parseNat? t, parseNat? l with | some t, some l => some (t, .rel l) | _, _ => none
+  | [t, "t", q] => match parseNat? t, parseNat? q with | some t, some q => some (t, .test q) | _, _ => none
+  | [t, "p", q] => match parseNat? t, parseNat? q with | some t, some q => some (t, .pop q) | _, _ => none
+  | [t, "w", q, m] => match parseNat? t, parseNat? q, parseNat? m with
+    | some t, some q, some m => some (t, .app q m) | _, _, _ => none
+  | _ => none
+
+def runDisc (ts : List String) : String :=
+  let kv := parseKVs ts
+  let g := kvGet kv
+  let n := (parseNat? (g "n")).getD 0
+  let guards : List (Nat × Nat) := (splitComma (g "g")).filterMap fun p =>
+    match p.splitOn ":" with
+    | [a, b] => match parseNat? a, parseNat? b with | some a, some b => some (a, b) | _, _ => none
+    | _ => none
+  let q0s : List (Nat × List Nat) := if g "q" == "-" then [] else ((g "q").splitOn "/").filterMap fun p =>
+    match p.splitOn ":" with
+    | [a, b] => (parseNat? a).map fun a => (a, if b.isEmpty then [] else (b.splitOn ".").filterMap parseNat?)
+    | _ => none
+  let guard : Nat → Nat := fun q => match guards.find? (·.1 == q) with | some p => p.2 | none => 1000 + q
+  let q0 : Nat → List Nat := fun q => match q0s.find? (·.1 == q) with | some p => p.2 | none => []
+  let evs := if g "ev" == "-" then [] else (splitComma (g "ev"))
+  match evs.mapM parseDiscEv with
+  | none => "bad-op"
+  | some tr =>
+    let s := Disc.run (Disc.init guard q0) tr
+    let showL (l : List Nat) := commaList (l.map toString)
+    s!"viol={if s.viol then 1 else 0} fault={if s.fault then 1 else 0}" ++
+      String.join ((List.range n).map fun q => s!" | {q}: q={showL (s.q q)} sent={showL (s.sent q)} recv={showL (s.recv q)}")
 
 /-- run-length compression `x*n` of equal neighbours, joined by `;` -/
 def rle (xs : List String) : String :=
